@@ -875,6 +875,15 @@ def _run_corpus(ctx, model):
             _train_chain(ctx, model, c["n"], c["b"], c["epochs"], c["spc"])
 
 
+def generate(ctx):
+    import flax_translate
+
+    c = flax_translate.write()
+    ctx.extra["constants_from_source"] = {k: (v if isinstance(v, (int, bool, str)) else list(v)) for k, v in c.items()}
+    return [("Scico.Generated.FlaxTables", "normalised source of the 13 functions the model follows = pinned source; checkpoint options, default "
+             "period factors, squeeze axes, default seed = model constants")]
+
+
 def correspond(ctx, model):
     common.setup_scico()
     _run_corpus(ctx, model)
